@@ -9,6 +9,7 @@ CONSTANTS
   ServerRun = TRUE
   CasLoserErrors = TRUE
   ExitCheckAfterHandler = FALSE
+  HooksConcurrent = TRUE
   CountAtAccept = TRUE
 SYMMETRY Sym
 SPECIFICATION Spec
